@@ -3,8 +3,10 @@
 # Uses a private scratch worktree (outside /repo and /verif) with the patch applied; /repo is never touched.
 cd "$(dirname "$0")"
 W=/tmp/ownreg-repo
-for d in seeded/*/; do
-  n=$(basename "$d")
+# optional arguments: names of seeded defects (default: all)
+LIST="$*"; [ -z "$LIST" ] && LIST=$(ls -d seeded/*/ | xargs -n1 basename)
+for n in $LIST; do
+  d=seeded/$n/
   id=$(echo "$n" | cut -c1-3)
   [ -f "$d/patch.diff" ] || continue
   git -C /repo worktree remove --force $W 2>/dev/null
